@@ -884,9 +884,14 @@ func (fr *Frame) lookup(i *ssa.Lookup, st *State) Val {
 
 func (fr *Frame) mapDelete(st *State, mt types.Type, m, k T) {
 	vc := fr.x.vc
-	domK, _, _, ok := mapKeys(mt)
+	domK, _, _, _ := mapKeys(mt)
 	dom := vc.getGlob(st, domK, SArrIAB)
 	vc.eng.noteGlobSort(domK, SArrIAB)
+	// the key set is tracked exactly whenever the key is a scalar (also for composite values)
+	ok := false
+	if ks, kok := leafSort(mt.Underlying().(*types.Map).Key()); kok && ks == SInt && k.Sort == SInt {
+		ok = true
+	}
 	if !ok {
 		st.setGlob(domK, Sto(dom, m, vc.fresh("dom", SArrIB)))
 		return
